@@ -196,6 +196,21 @@ pub fn gen_input(r: &mut Rng, st: &State) -> (String, &'static str) {
                 "COMMIT",
                 "ROLLBACK",
             ];
+            if r.chance(1, 3) {
+                // every scalar / aggregate function of the binder with 0-3 arguments of every kind (arity and type errors
+                // must be errors, not panics)
+                let f = *r.pick(&["COUNT", "SUM", "AVG", "MIN", "MAX", "CHAR_LENGTH", "UPPER", "LOWER", "LTRIM", "RTRIM", "CONCAT", "ABS", "ROUND", "CEILING", "FLOOR", "SQRT", "COALESCE", "NULLIF"]);
+                let n = r.below(4);
+                let args: Vec<&str> = (0..n).map(|_| *r.pick(&["a", "s", "d", "id", "NULL", "1", "'x'", "1.5", "a > 1", "*", "-a"])).collect();
+                let place = r.below(3);
+                let call = format!("{}({})", f, args.join(", "));
+                let sql = match place {
+                    0 => format!("SELECT {} FROM t", call),
+                    1 => format!("SELECT id FROM t WHERE {} IS NOT NULL", call),
+                    _ => format!("SELECT id FROM t ORDER BY {}", call),
+                };
+                return (sql, "function-arity");
+            }
             (r.pick(&v).to_string(), "semantic")
         }
         89..=93 => {
